@@ -553,7 +553,8 @@ pub struct BuStats { pub max_queue: usize, pub executed: usize, pub scheduled: u
 pub fn pass_bottom_up(rec: &SessionRec, stats: &mut BuStats) -> Vec<Finding> {
   let mut out = Vec::new();
   let evs = &rec.events;
-  let Some(start) = evs.iter().position(|e| matches!(e, Ev::BuCreate)) else { return out; };
+  // (a build that was abandoned before its update leaves nothing to judge: the last one created counts)
+  let Some(start) = evs.iter().rposition(|e| matches!(e, Ev::BuCreate)) else { return out; };
   let end = evs.iter().position(|e| matches!(e, Ev::BuUpdateRet)).unwrap_or(evs.len());
   let mut sh = rec.shadow_before.clone();
   for e in &evs[..start] { sh.apply(e); }
